@@ -1,3 +1,4 @@
 -- root of the library: everything `lake build` must check
 import Pdpy11.Driver
 import Pdpy11.Props.C15
+import Pdpy11.Props.C14
